@@ -77,6 +77,7 @@ func genCache(r *prng.R, n int) []string {
 	vals := []string{"", "x", "x", "yy", "yy", "zzzz", "0123456789"}
 	ttls := []int{-1, 0, 1, 1, 1, 2, 2, 4, 8}
 	gated := r.Chance(50)
+	wallSteps := r.Chance(40)
 	for len(tl.ops) <= n {
 		k := proto.Enc(prng.Pick(r, keys))
 		switch x := r.Intn(100); {
@@ -107,6 +108,9 @@ func genCache(r *prng.R, n int) []string {
 			}
 		case x < 86:
 			tl.move()
+		case x < 91 && wallSteps:
+			// the wall clock is stepped (NTP, VM resume); no time elapses
+			tl.ops = append(tl.ops, fmt.Sprintf("wstep d=%d", prng.Pick(r, []int64{-1_000_000_000, -125_000_001, -125_000_000, -1, 1, 125_000_000, 1_000_000_000})))
 		case x < 94:
 			tl.fire()
 		default:
@@ -115,6 +119,19 @@ func genCache(r *prng.R, n int) []string {
 	}
 	tl.ops = append(tl.ops, "probe")
 	return tl.ops
+}
+
+// respExtras: the response arrives with a nil header map, and/or a later remedy of the chain writes a header into
+// the transaction's header map after the plugin has returned.
+func respExtras(r *prng.R, noHeaders bool) string {
+	out := ""
+	if noHeaders && r.Chance(30) {
+		out += " nil=1"
+	}
+	if r.Chance(35) {
+		out += " edit=" + prng.Pick(r, []string{"x-lunar-retry-after:7", "x-edited:1", "X-Tag:forged"})
+	}
+	return out
 }
 
 type ppChoice struct{ pp string }
@@ -159,8 +176,11 @@ func genCaching(r *prng.R, n int) []string {
 			if r.Chance(30) {
 				ra = "1"
 			}
-			tl.ops = append(tl.ops, fmt.Sprintf("resp %s id=r%d st=%d body=%s tag=%s ra=%s", key, rid,
-				prng.Pick(r, []int{200, 200, 404, 500}), proto.Enc(prng.Pick(r, bodies)), tag, ra))
+			if r.Chance(25) {
+				tag, ra = "%n", "%n" // a provider response with NO header at all
+			}
+			tl.ops = append(tl.ops, fmt.Sprintf("resp %s id=r%d st=%d body=%s tag=%s ra=%s%s", key, rid,
+				prng.Pick(r, []int{200, 200, 404, 500}), proto.Enc(prng.Pick(r, bodies)), tag, ra, respExtras(r, tag == "%n" && ra == "%n")))
 			tl.mark(tl.now + int64(ttl)*ttlUnit)
 		case x < 62:
 			tl.ops = append(tl.ops, "req "+key)
@@ -206,8 +226,12 @@ func genShared(r *prng.R, n int) []string {
 		switch x := r.Intn(100); {
 		case x < 30:
 			rid++
-			tl.ops = append(tl.ops, fmt.Sprintf("resp %s id=r%d st=200 body=%s tag=t%d ra=%%n", key, rid,
-				proto.Enc(prng.Pick(r, bodies)), rid))
+			stag := fmt.Sprintf("t%d", rid)
+			if r.Chance(30) {
+				stag = "%n"
+			}
+			tl.ops = append(tl.ops, fmt.Sprintf("resp %s id=r%d st=200 body=%s tag=%s ra=%%n%s", key, rid,
+				proto.Enc(prng.Pick(r, bodies)), stag, respExtras(r, stag == "%n")))
 			tl.mark(tl.now + int64(rems[ri].ttl)*ttlUnit)
 			if r.Chance(60) {
 				tl.ops = append(tl.ops, "probe") // what did THIS remedy add?
